@@ -211,7 +211,11 @@ def end_to_end(res, n):
                 spec += f"where len(str(<start>)) >= {rng.randint(0, 3)}\n"
             random.seed(res.seed + i)
             fan = Fandango(spec)
-            sols = common.guarded(lambda: fan.fuzz(desired_solutions=3, max_generations=15, population_size=12), 30)
+            try:
+                sols = common.guarded(lambda: fan.fuzz(desired_solutions=3, max_generations=15, population_size=12), 30)
+            except common.ImplTimeout:
+                res.bump("e2e_gave_up_30s")
+                continue
             res.count(("e2e", spec), nontrivial=True)
             res.bump("e2e_specs")
             if i == 0:
